@@ -1,4 +1,5 @@
 import DracoModel.KdTreeAttr
+import DracoModel.KdTreeLegacy
 import DracoProofs.RobustStatus
 /-
   DracoProofs.KdStatus — C02 status discipline of the kd-tree body decoder `Kd.decodeKdGeometry`: started with
@@ -81,10 +82,75 @@ theorem disc_decodePointAttributesKd (opts : DecOpts) (np : Nat) : Disc (decodeP
   unfold decodePointAttributesKd
   repeat' (first | exact disc_decodeKdAttributes _ _ _ | kddisc_step)
 
-attribute [local irreducible] decodePointAttributesKd in
-/-- **status discipline of the kd-tree body decoder** -/
+/-! ### the body of bitstreams older than 2.3 -/
+
+attribute [local irreducible] startDirect startNumbers in
+theorem disc_decodePointsL (legacy : Bool) (level dim maxPoints : Nat) : Disc (decodePointsL legacy level dim maxPoints) := by
+  unfold decodePointsL; dsimp only
+  repeat' (first | exact disc_startDirect | exact disc_startNumbers _ _ | kddisc_step)
+
+theorem disc_allocTreeDecoder (dim : Nat) : Disc (allocTreeDecoder dim) := by
+  unfold allocTreeDecoder; repeat' kddisc_step
+
+theorem disc_allocOutputIterator (kas : List KdAtt) : Disc (allocOutputIterator kas) := by
+  unfold allocOutputIterator; exact disc_alloc _ _
+
+theorem disc_resetAll (np : Nat) : ∀ kas : List KdAtt, Disc (resetAll np kas)
+  | [] => by simp only [resetAll]; exact disc_pure _
+  | ka :: kas => by
+    simp only [resetAll]
+    exact disc_bind (disc_alloc _ _) (fun _ => disc_resetAll np kas)
+
+attribute [local irreducible] decodePointsL allocTreeDecoder allocOutputIterator resetAll in
+theorem disc_decodeLegacyInt (legacy : Bool) (np : Nat) (kas : List KdAtt) (dim : Nat) :
+    Disc (decodeLegacyInt legacy np kas dim) := by
+  unfold decodeLegacyInt
+  repeat' (first | exact disc_decodePointsL _ _ _ _ | exact disc_allocTreeDecoder _ | exact disc_allocOutputIterator _ | exact disc_resetAll _ _ | kddisc_step)
+
+theorem disc_floatTreeHeader : Disc floatTreeHeader := by
+  unfold floatTreeHeader; repeat' kddisc_step
+
+attribute [local irreducible] decodePointsL allocTreeDecoder in
+theorem disc_floatTreePoints (legacy : Bool) (level np : Nat) : Disc (floatTreePoints legacy level np) := by
+  unfold floatTreePoints
+  repeat' (first | exact disc_decodePointsL _ _ _ _ | exact disc_allocTreeDecoder _ | kddisc_step)
+
+attribute [local irreducible] floatTreePoints in
+theorem disc_floatTreeInternal (legacy : Bool) (hp : Nat) : Disc (floatTreeInternal legacy hp) := by
+  unfold floatTreeInternal
+  repeat' (first | exact disc_floatTreePoints _ _ _ | kddisc_step)
+
+attribute [local irreducible] floatTreeInternal floatTreeHeader allocOutputIterator in
+theorem disc_decodeLegacyFloat (legacy : Bool) (np : Nat) (ka : KdAtt) : Disc (decodeLegacyFloat legacy np ka) := by
+  unfold decodeLegacyFloat
+  repeat' (first | exact disc_floatTreeInternal _ _ | exact disc_floatTreeHeader | exact disc_allocOutputIterator _ | kddisc_step)
+
+attribute [local irreducible] decodeLegacyFloat decodeLegacyInt in
+theorem disc_decodeLegacyMethod (legacy : Bool) (np : Nat) (kas : List KdAtt) (dim method : Nat) :
+    Disc (decodeLegacyMethod legacy np kas dim method) := by
+  unfold decodeLegacyMethod
+  repeat' (first | exact disc_decodeLegacyFloat _ _ _ | exact disc_decodeLegacyInt _ _ _ _ | kddisc_step)
+
+attribute [local irreducible] decodeLegacyMethod in
+theorem disc_decodeKdAttributesLegacy (np : Nat) (descs : List AttDesc) : Disc (decodeKdAttributesLegacy np descs) := by
+  unfold decodeKdAttributesLegacy
+  repeat' (first | exact disc_decodeLegacyMethod _ _ _ _ _ | kddisc_step)
+
+attribute [local irreducible] decodeKdAttributesLegacy in
+theorem disc_decodePointAttributesKdLegacy (np : Nat) : Disc (decodePointAttributesKdLegacy np) := by
+  unfold decodePointAttributesKdLegacy
+  repeat' (first | exact disc_decodeKdAttributesLegacy _ _ | kddisc_step)
+
+attribute [local irreducible] decodePointAttributesKdLegacy in
+theorem disc_decodeKdGeometryLegacy : Disc decodeKdGeometryLegacy := by
+  unfold decodeKdGeometryLegacy; dsimp only
+  repeat' (first | exact disc_decodePointAttributesKdLegacy _ | kddisc_step)
+
+attribute [local irreducible] decodePointAttributesKd decodeKdGeometryLegacy in
+/-- **status discipline of the kd-tree body decoder**, every bitstream version (the dispatch to the body of streams
+    older than 2.3 included) -/
 theorem disc_decodeKdGeometry (opts : DecOpts) : Disc (decodeKdGeometry opts) := by
   unfold decodeKdGeometry; dsimp only
-  repeat' (first | exact disc_decodePointAttributesKd _ _ | kddisc_step)
+  repeat' (first | exact disc_decodeKdGeometryLegacy | exact disc_decodePointAttributesKd _ _ | kddisc_step)
 
 end Draco.Kd
